@@ -43,6 +43,12 @@ func (p *Parser) App(code uint32, typ ...string) (*App, error) {
 	var app *App
 	if len(typ) > 0 {
 		app = p.apptype[appIdTypeIdx{code, typ[0]}]
+		if app == nil {
+			// An application declared without a type supports any type,
+			// also after a later dictionary declared the same id with
+			// another type (appcode only remembers the latest one).
+			app = p.apptype[appIdTypeIdx{code, ""}]
+		}
 	}
 	if app != nil {
 		return app, nil
